@@ -174,9 +174,10 @@ class NeuralUCB(RLAlgorithm):
         )
         # Inverse of the regularised Gram matrix lambda * I
         self.sigma_inv = torch.eye(self.numel).to(self.device) / self.lamb
+        # Snapshot of the initial parameters (a constant, not part of the autograd graph)
         self.theta_0 = torch.cat(
             [w.flatten() for w in self.exp_layer.parameters() if w.requires_grad]
-        )
+        ).detach()
 
     def get_action(
         self, obs: ObservationType, action_mask: Optional[ArrayLike] = None
